@@ -1,6 +1,7 @@
 import GapicModel.Driver.Base
 import GapicModel.Model.Emit
 import GapicModel.Model.NamingOptions
+import GapicModel.Model.Layout
 import GapicModel.Pinned.Funcs
 open Lean GapicModel GapicModel.Regex
 namespace GapicModel.Driver
@@ -22,13 +23,22 @@ def opC11Renders (j : Json) : Except String Json := do
   let oj ← j.getObjVal? "opts"
   let o : Opts := ⟨← strsOf oj "transport", ← (← oj.getObjVal? "metadata").getBool?,
                    ← (← oj.getObjVal? "restAsync").getBool?, ← (← oj.getObjVal? "unversionedDisabled").getBool?⟩
-  let sj ← j.getObjVal? "shape"
-  let sh : Shape := ⟨← namingOf (← sj.getObjVal? "naming"), ← subPkgOf (← sj.getObjVal? "root"),
-                     ← (← getArrL sj "subs").mapM subPkgOf⟩
+  -- either an explicit `shape` (root + flattened views) or a `layout`: the target protos with their sub-package,
+  -- from which the model derives the views itself (`Layout.viewsOf`: nested and empty intermediate packages)
+  let sh : Shape ← (match j.getObjVal? "layout" with
+    | .ok lj => do
+      let ps ← (← getArrL lj "protos").mapM fun pj => do
+        pure (⟨← strsOf pj "sub", ← getStrL pj "module", ← strsOf pj "services"⟩ : Model.Layout.ProtoAt)
+      pure (Model.Layout.shapeOf (← namingOf (← lj.getObjVal? "naming")) ps)
+    | _ => do
+      let sj ← j.getObjVal? "shape"
+      pure (⟨← namingOf (← sj.getObjVal? "naming"), ← subPkgOf (← sj.getObjVal? "root"),
+             ← (← getArrL sj "subs").mapM subPkgOf⟩ : Shape))
   let which ← (← j.getObjVal? "templates").getStr?
   let ts := (if which == "ads" then Pinned.adsTemplates else Pinned.templates).map String.toList
   let out := responseNames o sh ts
   pure (Json.mkObj [("files", jarr (out.map fun p => jstr ("/".toList.intercalate p))),
+                    ("views", jarr (sh.subs.map fun sp => jstr ("/".toList.intercalate sp.view))),
                     ("rendered", Json.num (JsonNumber.fromNat (renders o sh ts).length))])
 
 open Model.Emit in
